@@ -154,7 +154,8 @@ def h_e2e_abort_then_reuse(ctx, n_long, n_short):
             return "ok"
         if pkt.uid not in seen:
             seen.append(pkt.uid)
-        return "pkt" if bool(lost_k == seen.index(pkt.uid)) else "ok"
+        return kind if bool(lost_k == seen.index(pkt.uid)) else "ok"
+    kind = ("pkt", "ack")[ctx.choice("lost_what", 2)]  # the frame itself, or only its acknowledgement (the receiver has it)
     med.loss = loss
     t1, t2 = ctx.int("type1", 0, 64), ctx.int("type2", 0, 64)
     long_msg, short_msg = blist(ctx.bytes("long", n_long)), blist(ctx.bytes("short", n_short))
@@ -197,7 +198,9 @@ def jobs(tier):
     for frags, events in (([2], 3), ([3], 3), ([2, 2], 3)) if tier == "quick" else (([2], 4), ([3], 5), ([2, 2], 4), ([3, 2], 4), ([4], 4)):
         out.append(Job("symbolic-delivery-schedule-through-update", h_schedule, dict(frags=frags, events=events, body=2, via="update"),
                        cost=4 * len(frags) * events ** 2, shards=4))
-    for nl, ns in ((49, 5), (72, 24), (30, 0)) if tier == "quick" else ((49, 5), (72, 24), (30, 0), (144, 1), (100, 10), (25, 24)):
+    # (the second message may itself be fragmented: the same header object, hence the same frame id, for two different messages)
+    for nl, ns in (((49, 5), (72, 24), (30, 0), (49, 49), (72, 50)) if tier == "quick" else
+                   ((49, 5), (72, 24), (30, 0), (144, 1), (100, 10), (25, 24), (49, 49), (72, 50), (72, 72), (50, 72), (97, 96))):
         out.append(Job("end-to-end-aborted-send-then-header-reuse", h_e2e_abort_then_reuse, dict(n_long=nl, n_short=ns), cost=30))
     for n in ((25, 48, 49, 96, 121, 137, 144) if tier == "quick" else range(25, 145)):
         out.append(Job("in-order-stream-is-delivered", h_inorder, dict(n=n)))
